@@ -389,6 +389,32 @@ def rule_xen(ctx, prog):
             okf = match(F(P(1), "size"), f.get("size"), {}) and any(s2[0] == 'field' and s2[2] == 'prot' for s2 in subterms(f.get("prot"))) and \
                 any(s2[0] == 'field' and s2[2] == 'flags' for s2 in subterms(f.get("flags"))) and match(F(P(1), "file_offset"), f.get("file_offset"), {})
             ctx.ob("R15.3.xen_region_fields", b.key, okf, b.where(s["ln"]), "region { size, prot, flags, file_offset } copied from the same-named fields of the range")
+    # a default fills only what the caller left open: every write to a field of the request happens where that field is known to be
+    # None (found by negating `if range.prot.is_none()`: the requested protection was then replaced by the default, reported by nothing)
+    n_w = 0
+    for pos, s in b.stmts():
+        if s["k"] == "assign" and s["lhs"].get("l") == 1 and s["lhs"].get("p"):
+            pr = s["lhs"]["p"]
+            fld = pr[0].get("name") if isinstance(pr[0], dict) else None
+            if fld is None:
+                continue
+            n_w += 1
+            facts = b.facts_at(pos)
+            none_here = any((r[0] == 'discr' and r[2] == 0 and match(F(P(1), fld), r[1], {})) or
+                            (r[0] == 'bool' and r[2] is True and match(C("Option::is_none", F(P(1), fld)), r[1], {})) for r in facts)
+            ctx.ob("R15.3.xen_default_only_when_none", f"{b.key}|{fld}", none_here, b.where(s["ln"]),
+                   f"`range.{fld}` is overwritten only where the caller left it None: {none_here} — otherwise the region reports a protection / flag word other than the requested one")
+    for c in b.calls():
+        cn = canon(c.target or "")
+        if any(isinstance(a_, dict) and a_.get("k") in ("move", "copy") for a_ in c.t["args"]):
+            for a_ in c.t["args"]:
+                if a_.get("k") in ("move", "copy") and "p" not in a_["pl"]:
+                    ds = b.defs(a_["pl"]["l"])
+                    if len(ds) == 1 and ds[0][1] == "rv" and ds[0][2]["k"] == "ref" and ds[0][2].get("mut") and ds[0][2]["pl"].get("l") == 1 and ds[0][2]["pl"].get("p"):
+                        n_w += 1
+                        okc = cn.split("::")[-1] in ("get_or_insert", "get_or_insert_with")
+                        ctx.ob("R15.3.xen_default_only_when_none", f"{b.key}|&mut via {cn.split('::')[-1]}", okc, c.where(),
+                               "a field of the request is handed out mutably only to Option::get_or_insert(_with), which writes only a None")
 
 
 def run(ctx, progs):
